@@ -722,6 +722,57 @@ def units_correspondence(rep, r, n):
                 rep.tie_broken('unit-handling model and implementation disagree', {'op': ln, 'model': o, 'impl': res})
 
 
+def tuple_axis_probe(rep, r, n):
+    """the background / RMS estimators reduce a stack over a TUPLE of axes (not only the trailing ones, negative entries allowed): the
+    result does not depend on whether the stack is float64 (bottleneck path), big-endian, float32 or integer (numpy path) and, for the
+    mean / median / standard deviation without clipping, equals numpy's own reduction (seed C15-r13 regrouped the elements on the
+    bottleneck path; F79: negative tuple axes raised for float64 only)"""
+    import photutils.background as pb
+    ests = [('MeanBackground', np.mean), ('MedianBackground', np.median), ('StdBackgroundRMS', np.std), ('ModeEstimatorBackground', None),
+            ('MMMBackground', None), ('SExtractorBackground', None), ('BiweightLocationBackground', None), ('MADStdBackgroundRMS', None),
+            ('BiweightScaleBackgroundRMS', None)]
+    for k in range(n):
+        shape = (r.randint(2, 4), r.randint(2, 5), r.randint(2, 4))
+        rs = np.random.RandomState(r.randrange(2 ** 31))
+        cube = rs.randint(0, 40, size=shape).astype(float)
+        cube += [10.0, 100.0, 1000.0, 5.0][k % 4] * np.arange(shape[k % 3]).reshape([-1 if i == k % 3 else 1 for i in range(3)])
+        axes = [(0, 1), (0, 2), (1, 2), (-3, -2), (0, -1), (-2, -1), (1, 0)][k % 7]
+        name, ref = ests[k % len(ests)]
+        from astropy.stats import SigmaClip
+        for clip in (None, SigmaClip(sigma=3.0, maxiters=5)):
+            est = getattr(pb, name)(sigma_clip=clip)
+            outs = {}
+            for rname, arr in (('float64', cube), ('big-endian', cube.astype('>f8')), ('float32', cube.astype(np.float32)), ('int32', cube.astype(np.int32)),
+                               ('float64-fortran', np.asfortranarray(cube))):
+                with warnings.catch_warnings():
+                    warnings.simplefilter('ignore')
+                    try:
+                        outs[rname] = np.asarray(est(arr, axis=axes), float)
+                    except Exception as e:                          # noqa: BLE001
+                        outs[rname] = e
+            rp = {'estimator': name, 'sigma_clip': None if clip is None else [3.0, 5], 'axis': list(axes), 'cube': cube.tolist()}
+            rep.case(('tuple-axis', name, axes, cube.tobytes(), clip is None), True, kind='tuple-axis:' + name)
+            rep.probe_only += 1
+            raised = [a for a, v in outs.items() if isinstance(v, Exception)]
+            if raised and len(raised) < len(outs):
+                rep.violation('tuple-axis-representation:raises', f'{name}(axis={axes}) raises for {raised} ({outs[raised[0]]!r}) but not for '
+                              f'{[a for a in outs if a not in raised]}', rp)
+                continue
+            if raised:
+                continue
+            base = outs['float32']
+            for a, v in outs.items():
+                if v.shape != base.shape or not np.allclose(v, base, rtol=3e-4, atol=1e-3, equal_nan=True):
+                    rep.violation('tuple-axis-representation', f'{name}(axis={axes}) on the {a} stack gives {v.tolist()} but {base.tolist()} on the float32 '
+                                  'stack holding the same values', rp)
+                    break
+            else:
+                if ref is not None and clip is None:
+                    want = ref(cube, axis=tuple(a % 3 for a in axes))
+                    if not np.allclose(outs['float64'], want, rtol=1e-10, atol=1e-10):
+                        rep.violation('tuple-axis-value', f'{name}(sigma_clip=None)(axis={axes}) = {outs["float64"].tolist()} but numpy gives {want.tolist()}', rp)
+
+
 def run(rep, tier):
     thorough = tier == 'thorough'
     scale = 4 if thorough else 1
@@ -740,6 +791,7 @@ def run(rep, tier):
     extreme_scale_float32(rep, r, 3 * scale)
     psf_init_units(rep, r, 3 * scale)
     mixed_argument_probe(rep, r)
+    tuple_axis_probe(rep, r, 18 * scale)
 
 
 def replay(rep, data):
